@@ -62,6 +62,7 @@ impl<'a> Lexer<'a> {
     /// the start of the current line
     pub open spec fn wf(&self) -> bool {
         sp_len(self.buf) <= u32::MAX && self.line_start <= self.cursor@ <= sp_len(self.buf) && boundary(self.buf, self.cursor@)
+        && boundary(self.buf, sp_len(self.buf))      // the end of a str is a char boundary
     }
     /// `self.substr(a..b)`
     #[verifier::external_body]
@@ -129,3 +130,32 @@ impl<'a> Lexer<'a> {
         }
     { unimplemented!() }
 }
+
+pub uninterp spec fn lit_s_spec() -> &'static str;
+pub uninterp spec fn lit_re_spec() -> &'static str;
+/// the literals "'s" and "'re": ASCII, no newline
+#[verifier::external_body] pub fn lit_s() -> (r: &'static str) ensures r == lit_s_spec(), sp_ascii(r), sp_no_newline(r) { "'s" }
+#[verifier::external_body] pub fn lit_re() -> (r: &'static str) ensures r == lit_re_spec(), sp_ascii(r), sp_no_newline(r) { "'re" }
+pub open spec fn suffix_ok(lx: Lexer<'_>, start: int, r: Option<LexResult<'_>>) -> bool {
+    match r {
+        Some(l) => (l.token.id is ApostropheS || l.token.id is ApostropheRE)
+            && l.token.range.start == (SourceLocation { line: lx.line, column: (start - lx.line_start) as u32 })
+            && l.end >= start && l.newlines == 0 && l.new_line_start is None,
+        None => true,
+    }
+}
+pub assume_specification<T, F: FnOnce() -> Option<T>>[Option::<T>::or_else](o: Option<T>, f: F) -> (r: Option<T>)
+    requires o is None ==> f.requires(()),
+    ensures o is Some ==> r == o, o is None ==> f.ensures((), r);
+impl<'a> Lexer<'a> {
+    /// find_next_index(|c| !(c.is_ascii_alphanumeric() || c == '.')): a boundary at or after the cursor
+    #[verifier::external_body]
+    pub fn find_number_end(&self) -> (r: usize)
+        requires self.wf(),
+        ensures self.cursor@ <= r <= sp_len(self.buf), boundary(self.buf, r as int), r == sp_number_end(*self)
+    { unimplemented!() }
+}
+/// end of the maximal run of ASCII alphanumerics and '.' starting at the cursor (uninterpreted)
+pub uninterp spec fn sp_number_end(lx: Lexer<'_>) -> int;
+#[verifier::external_body] pub struct ParseFloatErr { _p: u8 }
+#[verifier::external_body] pub fn parse_f64_res(s: &str) -> (r: Result<f64, ParseFloatErr>) { unimplemented!() }
